@@ -243,9 +243,14 @@ func (t *Transport) readMessage(obj ProtocolObject, maxLen uint64) error {
 	if d.Err() != nil {
 		return d.Err()
 	} else if msgSize > maxLen {
-		return fmt.Errorf("message size (%v bytes) exceeds maxLen of %v bytes", msgSize, maxLen)
+		// the stream cannot be resynchronized after a bad length prefix
+		err := fmt.Errorf("message size (%v bytes) exceeds maxLen of %v bytes", msgSize, maxLen)
+		t.setErr(err)
+		return err
 	} else if msgSize < uint64(t.aead.NonceSize()+t.aead.Overhead()) {
-		return fmt.Errorf("message size (%v bytes) is too small (nonce + MAC is %v bytes)", msgSize, t.aead.NonceSize()+t.aead.Overhead())
+		err := fmt.Errorf("message size (%v bytes) is too small (nonce + MAC is %v bytes)", msgSize, t.aead.NonceSize()+t.aead.Overhead())
+		t.setErr(err)
+		return err
 	}
 	t.inbuf.Reset()
 	t.inbuf.Grow(int(msgSize))
@@ -401,9 +406,13 @@ func (t *Transport) RawResponse(maxLen uint64) (*ResponseReader, error) {
 	d := types.NewDecoder(io.LimitedReader{R: t.conn, N: int64(8 + chacha20.NonceSize)})
 	msgSize := d.ReadUint64()
 	if msgSize > maxLen {
-		return nil, fmt.Errorf("message size (%v bytes) exceeds maxLen of %v bytes", msgSize, maxLen)
+		err := fmt.Errorf("message size (%v bytes) exceeds maxLen of %v bytes", msgSize, maxLen)
+		t.setErr(err)
+		return nil, err
 	} else if msgSize < uint64(chacha20.NonceSize+poly1305.TagSize) {
-		return nil, fmt.Errorf("message size (%v bytes) is too small (nonce + MAC is %v bytes)", msgSize, chacha20.NonceSize+poly1305.TagSize)
+		err := fmt.Errorf("message size (%v bytes) is too small (nonce + MAC is %v bytes)", msgSize, chacha20.NonceSize+poly1305.TagSize)
+		t.setErr(err)
+		return nil, err
 	}
 	msgSize -= uint64(chacha20.NonceSize + poly1305.TagSize)
 
